@@ -80,8 +80,8 @@ func lockedTypes(p *core.Program, relPkgs []string) []*types.Named {
 			if !ok {
 				continue
 			}
-			if lf, _ := locks.FindLockField(n); lf != "" {
-				out = append(out, n)
+			if lf, _ := locks.FindLockField(n); lf != "" && !MonitorTypes(p)[n.Obj()] {
+				out = append(out, n) // (a struct of nothing but primitives is the lock, not a collection)
 			}
 		}
 	}
